@@ -12,6 +12,7 @@ longer lines up (after shrinking) the seeded fallback decides.
 from __future__ import annotations
 
 import random as _random
+import sys
 from typing import Any
 from typing import Dict
 from typing import List
@@ -304,6 +305,7 @@ class SteerRandom(SimRandom):
 
 
 _PATCHED: Dict[str, Any] = {}
+_CAPTURED: List[Any] = []
 
 
 def install(sim: SimRandom) -> None:
@@ -316,6 +318,18 @@ def install(sim: SimRandom) -> None:
                 _PATCHED[name] = attr
     for name in _PATCHED:
         setattr(_random, name, getattr(sim, name))
+    # library modules that captured the functions themselves (``from random import shuffle``)
+    # are routed to *sim* as well: the seam is "the stdlib generator", however it is spelled
+    del _CAPTURED[:]
+    originals = {id(v): k for k, v in _PATCHED.items()}
+    for modname, mod in list(sys.modules.items()):
+        if mod is None or not (modname == "jsonpath_rfc9535" or modname.startswith("jsonpath_rfc9535.")):
+            continue
+        for gname, val in list(vars(mod).items()):
+            k = originals.get(id(val))
+            if k is not None and val is _PATCHED[k]:
+                _CAPTURED.append((mod, gname, val))
+                setattr(mod, gname, getattr(sim, k))
     # anything that captured a bound method of the hidden instance at import
     # time stays deterministic (loses bias control, not replay)
     inst.seed(sim.getstate()[1][0])
@@ -324,3 +338,6 @@ def install(sim: SimRandom) -> None:
 def uninstall() -> None:
     for name, attr in _PATCHED.items():
         setattr(_random, name, attr)
+    for mod, gname, val in _CAPTURED:
+        setattr(mod, gname, val)
+    del _CAPTURED[:]
